@@ -2,9 +2,11 @@
 # Builds the rewriter and warms the Go build cache. Offline.
 export GOFLAGS=-mod=mod GOPROXY=off GOSUMDB=off GOTOOLCHAIN=local
 set -e
-cd /verif/sim/rewrite && mkdir -p /verif/bin && go build -o /verif/bin/rewrite .
+ROOT="$(cd "$(dirname "$0")" && pwd)"
+export VERIF_ROOT="$ROOT"
+cd "$ROOT/sim/rewrite" && mkdir -p "$ROOT/bin" && go build -o "$ROOT/bin/rewrite" .
 S=$(mktemp -d /tmp/verif-setup-XXXXXX)
 trap 'rm -rf "$S"' EXIT
-/verif/sim/build.sh "$S" >/dev/null
-/verif/sim/build.sh "$S" race >/dev/null 2>&1 || true
+"$ROOT/sim/build.sh" "$S" >/dev/null
+"$ROOT/sim/build.sh" "$S" race >/dev/null 2>&1 || true
 echo setup ok
